@@ -344,6 +344,9 @@ type observation struct {
 	Panic     string
 }
 
+// errStop: a verdict was reported that makes further fencing impossible; the run ends (not a harness fault).
+var errStop = fmt.Errorf("stop")
+
 var errWatchdog = fmt.Errorf("fence reply not seen within the watchdog interval")
 
 const fenceTag = "\xfeFENCE\xfe"
@@ -1078,6 +1081,10 @@ func TestCheck(t *testing.T) {
 					if err == nil {
 						err = selfTest(run, e)
 					}
+					if err == errStop {
+						fatal.Store("STOP")
+						return
+					}
 					if err != nil {
 						fatal.Store(err.Error())
 						return
@@ -1234,13 +1241,20 @@ func selfTest(run *report.Run, e *env) error {
 	e.watchdog = 8 * time.Second
 	obs, err := e.run1(nil)
 	e.watchdog = watchdog
+	if fe, ok := err.(*fenceErr); ok {
+		// the lone valid request was answered at once, with a reply that does not verify against it
+		run.Violation(report.Violation{Part: "coa-listener/selftest", Kind: "bad-response", Site: "CoAServer.receiveLoop",
+			Detail: fmt.Sprintf("a lone valid Disconnect-Request was answered by a datagram with its identifier whose Response Authenticator does not verify against it: %s", hexShort(fe.reply)),
+			Trace:  []string{"valid Disconnect-Request (fence) alone"}, Extra: map[string]any{"secret_hex": hex.EncodeToString(e.secret), "selftest": true}})
+		return errStop
+	}
 	if err == errWatchdog {
 		// distinguish "nothing came back" (harness/network problem) from "something came back that does not verify"
 		if len(obs.Responses) > 0 {
 			run.Violation(report.Violation{Part: "coa-listener/selftest", Kind: "bad-response", Site: "CoAServer.receiveLoop",
 				Detail: fmt.Sprintf("a valid Disconnect-Request was answered by %d datagram(s), none of which carries the request identifier and a verifying Response Authenticator; first=%s", len(obs.Responses), hex.EncodeToString(obs.Responses[0])),
 				Trace:  []string{"valid Disconnect-Request (fence) alone"}, Extra: map[string]any{"secret_hex": hex.EncodeToString(e.secret), "selftest": true}})
-			return fmt.Errorf("self-test failed: fence reply does not verify (reported as violation)")
+			return errStop
 		}
 		e.mu.Lock()
 		logged := append([]string{}, e.srvLog...)
@@ -1250,7 +1264,7 @@ func selfTest(run *report.Run, e *env) error {
 				run.Violation(report.Violation{Part: "coa-listener/selftest", Kind: "authentic-rejected", Site: "CoAServer.receiveLoop",
 					Detail: fmt.Sprintf("a lone valid Disconnect-Request (secret of %d bytes, %q...) was rejected: the listener logged %q and sent nothing", len(e.secret), firstBytes(e.secret, 4), m),
 					Trace:  []string{"valid Disconnect-Request (fence) alone"}, Extra: map[string]any{"secret_hex": hex.EncodeToString(e.secret), "selftest": true}})
-				return fmt.Errorf("self-test failed: valid request rejected by the listener (reported as violation)")
+				return errStop
 			}
 		}
 		return fmt.Errorf("self-test: no reply to a valid request on loopback and no rejection logged by the listener")
@@ -1333,6 +1347,10 @@ func replay(run *report.Run) int {
 		e.watchdog = 8 * time.Second
 	}
 	obs, err = e.run1(d)
+	if _, ok := err.(*fenceErr); ok {
+		fmt.Printf("VIOLATION property=C15 replay=%s\n  kind=bad-response detail=%v\n", *report.FlagReplay, err)
+		return 1
+	}
 	if err != nil {
 		if err == errWatchdog && len(obs.Responses) > 0 {
 			fmt.Printf("VIOLATION property=C15 replay=%s\n  kind=bad-response detail=reply to a valid request does not verify: %s\n", *report.FlagReplay, hex.EncodeToString(obs.Responses[0]))
